@@ -117,6 +117,17 @@ def gather(L, p, extra_atoms):
                 F.promo_piece = PIECES[v]
             else:
                 F.promo_excl |= {PIECES[x] for x in v[1] if x < 6}
+        elif e[0] == "bin" and e[1] in ("Lt", "Le", "Gt", "Ge") and isinstance(v, int) and zob.payload(PROMO) in (e[2], e[3]) and \
+                (e[3] if e[2] == zob.payload(PROMO) else e[2])[0] == "enum" and (e[3] if e[2] == zob.payload(PROMO) else e[2])[1] == PIECE:
+            # an ordering test on the promotion piece (the derived order is the declaration order): the kinds it leaves
+            left_is_promo = e[2] == zob.payload(PROMO)
+            k_ = PIECES.index((e[3] if left_is_promo else e[2])[2])
+            op_ = e[1] if left_is_promo else {"Lt": "Gt", "Le": "Ge", "Gt": "Lt", "Ge": "Le"}[e[1]]
+            sat = {x for i_, x in enumerate(PIECES) if {"Lt": i_ < k_, "Le": i_ <= k_, "Gt": i_ > k_, "Ge": i_ >= k_}[op_] == bool(v)}
+            F.promo_excl |= set(PIECES) - sat
+            left_ = [x for x in PIECES if x not in F.promo_excl]
+            if len(left_) == 1:
+                F.promo_piece = left_[0]
         elif e == ("has", PINNED, FROM):
             F.b["pinned_from"] = bool(v)
         elif e[0] == "has" and e[2] == TO and e[1][0] == "line" and set(e[1][1:]) == {K, FROM}:
@@ -315,6 +326,8 @@ def check_is_legal(ctx, f, L):
                         conj["promotion shape"] = False
                     elif F.promo_piece in ("Knight", "Bishop", "Rook", "Queen"):
                         conj["promotion shape"] = True
+                    elif F.promo == "Some" and {"Pawn", "King"} <= F.promo_excl and not {"Knight", "Bishop", "Rook", "Queen"} <= F.promo_excl:
+                        conj["promotion shape"] = True          # (decided by exclusion: an ordering test or a run of != tests)
                     elif F.promo_piece in ("Pawn", "King") or {"Knight", "Bishop", "Rook", "Queen"} <= F.promo_excl:
                         conj["promotion shape"] = False
                     else:
